@@ -22,6 +22,12 @@ import PyrollModel.Proto
           `_contour_lines`, `roll._contour_line`, both present before the call, remembered hook values reading them
       memo <Class> <pass|roll> <n> <stale 0|1> → i,i,…   which iteration's input (0-based; 999 = what a stale memo held) the
           pass contour (`pass`) / the roll's contour line (`roll`) used in each of `n` consecutive loop bodies was built from
+      marks <hooks> <instances> <cells> <queries> → <result>|<marks>;…   nested hook evaluations on `instances` hook hosts with
+          `hooks` hooks (one implementation taking `cycle` + an optional `trylast` default each), `SolveGen.runReads` from no mark
+          <cells>   = cell;cell;…  for hook 0 instance 0, hook 0 instance 1, …: <explicit>/<impl>/<default>
+                      explicit, default = integer | `_`;  impl = `v<int>` | `p` | `a<hook>,<instance>,<a>,<b>`
+          <queries> = hook.instance,…   top-level reads in order (caches are clean before each)
+          result    = integer | `E` (AttributeError);  marks = the marks set after the read: hook.instance+… sorted (`-` = none)
 -/
 namespace SolveDriver
 open Proto Solve
@@ -78,6 +84,60 @@ def showResult (r : Result Float Nat) (overrun : Bool) : String :=
   let logged := if r.exc.isNone && !r.warned then toString (SolveGen.loggedIndex r.iterations) else "_"
   s!"{r.iterations} {if r.warned then 1 else 0} {e} {if r.createdOut then 1 else 0} {logged} {showOld r.carried.old} {r.carried.st}"
 
+def optInt2? (s : String) : Option (Option Int) := if s = "_" then some none else s.toInt?.map some
+
+def impl? (s : String) : Option SolveMarks.Impl :=
+  if s = "p" then some .pass
+  else if s.startsWith "v" then (s.drop 1).toString.toInt?.map .value
+  else if s.startsWith "a" then
+    match (s.drop 1).toString.splitOn "," with
+    | [g, k, a, b] =>
+      match g.toNat?, k.toNat?, a.toInt?, b.toInt? with
+      | some g, some k, some a, some b => some (.ask g k a b)
+      | _, _, _, _ => none
+    | _ => none
+  else none
+
+def cell? (s : String) : Option (Option Int × SolveMarks.Impl × Option Int) :=
+  match s.splitOn "/" with
+  | [e, i, d] =>
+    match optInt2? e, impl? i, optInt2? d with
+    | some e, some i, some d => some (e, i, d)
+    | _, _, _ => none
+  | _ => none
+
+def query? (s : String) : Option (Nat × Nat) :=
+  match s.splitOn "." with
+  | [g, k] => match g.toNat?, k.toNat? with
+    | some g, some k => some (g, k)
+    | _, _ => none
+  | _ => none
+
+def worldOf (ni : Nat) (cells : Array (Option Int × SolveMarks.Impl × Option Int)) : SolveMarks.World :=
+  let at' := fun (g k : Nat) => (cells[g * ni + k]?).getD (none, .pass, none)
+  { explicit := fun g k => (at' g k).1, impl := fun g k => (at' g k).2.1, dflt := fun g k => (at' g k).2.2 }
+
+def leKey (a b : Nat × Nat) : Bool := a.1 < b.1 || (a.1 == b.1 && a.2 ≤ b.2)
+
+def insertKey (x : Nat × Nat) : List (Nat × Nat) → List (Nat × Nat)
+  | [] => [x]
+  | y :: ys => if leKey x y then x :: y :: ys else y :: insertKey x ys
+
+def showMarks (m : SolveMarks.Marks) : String :=
+  let s := m.foldl (fun acc x => insertKey x acc) []
+  if s.isEmpty then "-" else "+".intercalate (s.map fun x => s!"{x.1}.{x.2}")
+
+def showRes : SolveMarks.Res → String
+  | .val v => toString v
+  | .attributeError => "E"
+
+/-- the history one read at a time (the marks after EVERY read are shown) -/
+def marksHistory (W : SolveMarks.World) (fuel : Nat) : List (Nat × Nat) → SolveMarks.Marks → List String
+  | [], _ => []
+  | q :: qs, m =>
+    let r := SolveGen.runReads fuel [(W, q.1, q.2)] m
+    s!"{match r.2 with | [x] => showRes x | _ => "?"}|{showMarks r.1}" :: marksHistory W fuel qs r.1
+
 def handle (line : String) : String :=
   match toks line with
   | ["solve", maxIter, prec, old, hasOut, script] =>
@@ -112,6 +172,10 @@ def handle (line : String) : String :=
          else { pm := none, rm := none, rv := 999, pv := 999 })
       if used.isEmpty then "-" else ",".intercalate (used.map fun t => toString (if which = "roll" then t.2.1 else t.1.1))
     | _, _ => "bad-op"
+  | ["marks", nh, ni, cells, queries] =>
+    match nat? nh, nat? ni, (cells.splitOn ";").mapM cell?, (queries.splitOn ",").mapM query? with
+    | some _, some ni, some cs, some qs => ";".intercalate (marksHistory (worldOf ni cs.toArray) 64 qs [])
+    | _, _, _, _ => "bad-op"
   | ["sub", outcomes] =>
     let os := if outcomes = "-" then [] else outcomes.splitOn ","
     let subs : List (Nat → Nat × Except Exc Unit) :=
